@@ -138,7 +138,7 @@ Record core := {
 Record doc := {
   d_core : core;
   d_rewriters : option (list (str * core));
-  d_globals : list str                      (* ids of the global utility rules already registered *)
+  d_globals : list (str * option (list N))  (* the global utility rules already registered: id, potential kinds *)
 }.
 
 Inductive lerr :=
@@ -335,20 +335,57 @@ Definition doc_rewriters (d : doc) : list (str * core) :=
   match d_rewriters d with Some rws => rws | None => [] end.
 
 (* RuleConfig::try_from *)
+(* Matcher::potential_kinds of the rule with ReferentRule::potential_kinds as coded: a reference answers with the
+   LOCAL utility of that name when there is one (whatever it knows), with the global rule's kinds otherwise *)
+Fixpoint pkg (fuel : nat) (utils : list (str * rule)) (gk : list (str * option (list N))) (r : rule) {struct fuel}
+  : option (list N) :=
+  match fuel with
+  | O => None
+  | S f =>
+      match r with
+      | RPattern p => pk_pattern p
+      | RKind k => Some [k]
+      | RRegex _ => None
+      | RRange _ _ _ _ => None
+      | RNth _ _ _ o => match o with Some r' => pkg f utils gk r' | None => None end
+      | RInside _ _ _ | RHas _ _ _ | RPrecedes _ _ | RFollows _ _ => None
+      | RNot _ => None
+      | RAll rs =>
+          fold_left (fun (acc : option (list N)) (x : rule) =>
+                       match pkg f utils gk x with
+                       | None => acc
+                       | Some ks => match acc with Some a => Some (inter a ks) | None => Some ks end
+                       end) rs None
+      | RAny rs =>
+          fold_left (fun (acc : option (list N)) (x : rule) =>
+                       match acc, pkg f utils gk x with
+                       | Some a, Some ks => Some (union a ks)
+                       | _, _ => None
+                       end) rs (Some [])
+      | RMatches id =>
+          match lookup id utils with
+          | Some ur => pkg f utils gk ur
+          | None => match lookup id gk with Some o => o | None => None end
+          end
+      end
+  end.
+
+Definition global_names (d : doc) : list str := map fst (d_globals d).
+
 Definition load (d : doc) : lres (list str * list str) :=
   let k := d_core d in
-  match load_core k (d_globals d) [] with
+  match load_core k (global_names d) [] with
   | LErr e => LErr e
   | LOk orders =>
       (* a document without a `rewriters` section defines no rewriter *)
       match (let rws := doc_rewriters d in
-             match load_rewriters rws (d_globals d) (core_defined_vars k) with
+             match load_rewriters rws (global_names d) (core_defined_vars k) with
              | LErr e => LErr e
              | LOk _ => check_rewriters k rws
              end) with
       | LErr e => LErr e
       | LOk _ =>
-          match pk (kinds_fuel k) (k_utils k) (k_rule k) with
+          match pkg (kinds_fuel k) (k_utils k) (d_globals d) (k_rule k) with
           | None => LErr ENoKinds
           | Some _ => LOk orders
           end
